@@ -177,6 +177,7 @@ P("C10", CACHE_ASS + ["wg::WaitGroup::wait (Condvar parking) is replaced by: run
 WF = ["Cache::wait", "Cache::try_update", "Cache::try_remove", "Cache::clear", "CacheProcessor::handle_item(Wait)", "CacheCleaner::handle_item(Wait)", "wg::WaitGroup::new/add/done/waitings"]
 H("C10", "c10_wait_barrier", "cache::sync", WF, "arbitrary quiescent state with <= 2 residents and room for one more entry; optionally one insert and one remove of arbitrary keys before wait()", timeout=2400, mem_gb=20)
 H("C10", "c10_wait_vs_clear", "cache::sync", WF, "as c10_wait_barrier, with a clear() landing after the Wait marker was queued so that the cleaner meets the marker", timeout=2400, mem_gb=20)
+H("C10", "c10_wait_inflight", "cache::sync", WF, "one insert of an absent key with room, already taken off the buffer by the processor (buffer empty) but not yet applied when wait() is called", timeout=2400, mem_gb=20)
 H("C10", "c10_wait_full_buffer", "cache::sync", WF, "insert buffer of size 1 already full", timeout=1800)
 # ---- C15
 P("C15", CACHE_ASS + ["the body of LFUPolicy::push is a crossbeam select! that Kani cannot compile; in c15_ring_batches / c15_get_records push is replaced by a recorder that notes every handed-over batch and answers kept / dropped / error as the solver chooses. The kept/dropped accounting inside push (KeepGets / DropGets) and the bounded(3) queue itself are outside the claim"])
